@@ -566,7 +566,10 @@ fn pool_worker_loop(pool: Arc<ThreadPool>, timeout: Option<Duration>) {
                     .task_wakeup
                     .wait_timeout(records, time_to_deadline)
                     .unwrap();
-                if wait_result.timed_out() {
+                if wait_result.timed_out() && records.queue.is_empty() {
+                    // (If a task was queued for us just as the timeout
+                    // expired, we must run it: the submitter saw us as
+                    // available and will not notify anyone else.)
                     records.available_workers -= 1;
                     return;
                 } else {
